@@ -549,12 +549,13 @@ func onlyCommitAddsAKey(c *eng.Ctx) {
 			if f == nil {
 				continue
 			}
-			ds := p.DeepSites(f, eng.AnyCallTo("kv/table.storeBuilder.afterWrite", "kv/table.streamWriter.Commit", "kv/table.StreamWriter.Commit"), 3, false)
+			ds := p.DeepSites(f, eng.Any(eng.AnyCallTo("kv/table.storeBuilder.afterWrite", "kv/table.streamWriter.Commit", "kv/table.StreamWriter.Commit"), invokeOn(".keys", "Add")), 3, false)
 			c.Check(len(ds) == 0, m+":does-not-commit", nil, f,
 				"Prepare / Write never complete an entry: a caller that prepares a key and finds nothing to write (a metric without series data) simply does not commit, and the key is then not in the table", fmt.Sprintf("%d calls of afterWrite / Commit reachable", len(ds)))
 		}
 		cm := c.Fn("kv/table.streamWriter.Commit")
-		c.Check(len(p.Sites(cm, eng.AnyCallTo("kv/table.storeBuilder.afterWrite"))) >= 1, "commit-adds-the-key", nil, cm, "Commit records the key", "")
+		// afterWrite, or its body in place: the key is added to the builder's key set
+		c.Check(len(p.Sites(cm, eng.Any(eng.AnyCallTo("kv/table.storeBuilder.afterWrite"), invokeOn(".keys", "Add")))) >= 1, "commit-adds-the-key", nil, cm, "Commit records the key", "")
 	})
 }
 
@@ -914,10 +915,20 @@ func lookupMissIsFinalOnlyOnCurrentSnapshot(c *eng.Ctx) {
 		if snapAt == nil {
 			c.Undecided("unrecognised shape: the snapshot handed to createValue is neither s.getSnapshot() nor a read of s.snapshot")
 		}
-		mem := c.One(f, eng.AnyCallTo(kvsT+".GetValueFromMem"), "s.GetValueFromMem(bucket, key)")
-		if !eng.DominatedBy(f, mem.Instr, []eng.Site{{Fn: f, Instr: snapAt}}, nil) {
+		// the memory look-up: the exported helper, or the two stores read in place
+		mems := c.P.SitesDirect(f, eng.AnyCallTo(kvsT+".GetValueFromMem", kvsT+".getValueFromMem"))
+		if len(mems) == 0 {
+			c.Undecided("unrecognised shape: getOrCreateValue does not look the key up in the memory stores (GetValueFromMem / getValueFromMem)")
+		}
+		snapshotFirst := false
+		for _, mem := range mems {
+			if eng.DominatedBy(f, mem.Instr, []eng.Site{{Fn: f, Instr: snapAt}}, nil) {
+				snapshotFirst = true
+			}
+		}
+		if !snapshotFirst {
 			// memory first, snapshot afterwards: a key that left memory is in the snapshot taken later - nothing to re-check
-			c.Check(true, "memory-read-before-the-snapshot", mem.Instr, f, "the memory stores are read before the snapshot is taken", "")
+			c.Check(true, "memory-read-before-the-snapshot", mems[0].Instr, f, "the memory stores are read before the snapshot is taken", "")
 			return
 		}
 		// snapshot first (createValue needs it to detect a flush): the look-up-only exits
